@@ -66,6 +66,17 @@ class Loops:
 
     _idiom_key = None
 
+    def sidecar(self, ex, table, key):
+        """the sidecar entry for a loop; a function under contract with ONE annotated loop keeps its annotation when that
+        loop has been moved into a helper it calls (extract-method): the loop is found in the inlined helper instead"""
+        if key in table:
+            return table[key]
+        if ex.depth > 0:
+            own = [k for k in table if k[0] == ex.task.label]
+            if len(own) == 1:
+                return table[own[0]]
+        return None
+
     def loop_key(self, ex, node):
         if self._idiom_key is not None and isinstance(node, (ast.ListComp, ast.DictComp, ast.While)):
             return self._idiom_key
@@ -92,10 +103,13 @@ class Loops:
         d = ex.iter_descs.get(L.simp(v).get_id()) if hasattr(ex, 'iter_descs') else None
         if d is not None:
             return d
-        if ex.branch(L.is_List(v), 'iter-list'):
-            return IterDesc('seq', ref=Val.lref(v))
-        if ex.branch(L.is_Tuple(v), 'iter-tuple'):
-            return IterDesc('seq', ref=Val.tref(v))
+        if ex.branch(z3.Or(L.is_List(v), L.is_Tuple(v)), 'iter-seq'):
+            ref = Val.lref(v) if ex.branch(L.is_List(v), 'iter-list') else Val.tref(v)
+            # TSI-6 is a heap invariant of every container that existed before this activation (as in iter_snapshot)
+            from .families import CAP
+            n = ex.heap.llen(ref)
+            ex.assume(z3.And(n >= 0, z3.Or(ex.is_fresh(ref), n <= CAP)))
+            return IterDesc('seq', ref=ref)
         if ex.branch(L.is_Str(v), 'iter-str'):
             return IterDesc('str', sid=Val.s(v))
         if ex.branch(L.is_Dict(v), 'iter-dict'):
@@ -190,7 +204,7 @@ class Loops:
         names = self.cur_mod_names.get(key, ())
         for fam in ex.families:
             invs.extend(fam.loop_invariants(ex, env, names))
-        fn = self.invariants.get(key)
+        fn = self.sidecar(ex, self.invariants, key)
         if fn is not None:
             invs.extend(fn(ex, env, i))
         for n, pname, props, pf in self.var_invs.get(key, ()):
@@ -211,7 +225,7 @@ class Loops:
     def assume_invs(self, ex, key, env, i, extra=None):
         for name, props, f in self.collect_invs(ex, key, env, i, extra):
             ex.assume(f)
-        ax = self.axioms.get(key)
+        ax = self.sidecar(ex, self.axioms, key)
         if ax is not None:
             for f in ax(ex, env, i):
                 ex.assume(f)
@@ -283,7 +297,7 @@ class Loops:
             el = self.elem(ex, desc, i)
             ex.event('loop_elem', key, i, el)
             bind(el, i)
-            pb = self.post_bind_axioms.get(key)
+            pb = self.sidecar(ex, self.post_bind_axioms, key)
             if pb is not None:
                 for f in pb(ex, env, i):
                     ex.assume(f)
@@ -571,7 +585,12 @@ class Loops:
                 ex.assign(gen.target, self.elem(ex, desc, J), jenv)
                 ex.exec_block(list(prelude), jenv)
                 body_at_J = ex.to_val(ex.eval(node.elt, jenv))
+                allocated = any(e[0] == 'alloc' for e in ex.events[len(saved_events):])
                 ex.events = saved_events
+                if allocated:
+                    # an element that is a new object each time (a tuple / list display) is never *identical* to the
+                    # one built when the invariant was written down: no element-wise invariant for such bodies
+                    raise Unsupported('allocating comprehension body')
                 ex.comp_body_at = getattr(ex, 'comp_body_at', {})
                 ex.comp_body_at[L.simp(res).get_id()] = (res, J, body_at_J, desc)
             except Unsupported:
